@@ -52,10 +52,13 @@ META = dict(
          "element draws something (decidable drawsAll: shown, children exist, dispatch creates a partial, a one-item "
          "wrapper has a child - excludes the registered Opt(Empty()) shape), all options and returning fuels, every "
          "EditablePartial of the final converter state has all item/items slots filled with references (conv_HS: a "
-         "returning call returns an item, never loses a reference, leaves its partials filled); this is a statement "
-         "about the heap that to_railroad resolves, NOT yet noEmptyPlaceholder of the resolved trees: missing are "
-         "(1) the diagram content copied out of a Group partial at extraction, (2) acyclicity/in-bounds of the "
-         "partial heap for resolve. "
+         "returning call returns an item, never loses a reference, leaves its partials filled); "
+         "no_empty_placeholder_tree_partial adds, under the same hypothesis: every kept diagram entry's content is a "
+         "reference (conv_KD: an element is extracted only after its own conversion is complete, when its partial is "
+         "filled) and NO returned tree contains the '' placeholder (Tree.hasEmptyStr, the Optional('') of the "
+         "finding). Still partial: noEmptyPlaceholder of the resolved trees also forbids rawNone, which on a filled "
+         "heap can only come from resolve's fuel |heap|+1 running out or a dangling reference - the acyclicity / "
+         "in-bounds invariant of the partial heap is not proved. "
          "tokens_covered and the tree-level no_empty_placeholder are NOT proved in "
          "general: they are decided by the oracle on the real code over generated grammars and by the "
          "model-vs-code correspondence.",
@@ -86,7 +89,9 @@ THEOREMS = [
     "PP.Diagram.root_first_partial",
     "PP.Diagram.no_empty_placeholder_partial",
     "PP.Diagram.no_empty_placeholder_output_partial",
+    "PP.Diagram.no_empty_placeholder_tree_partial",
     "PP.Diagram.conv_HS",
+    "PP.Diagram.conv_KD",
     "PP.Diagram.conv_step",
 ]
 
